@@ -897,7 +897,9 @@ def glue_greenlet() -> None:
         inner_frame = glet.gr_frame
         outer_frame = None
         if inner_frame is None:
-            if not glet:  # dead or not started
+            # (greenlet's own notion of "active", not bool(glet): a subclass
+            # such as gevent's Greenlet may define its truth value otherwise)
+            if not GreenletType.__bool__(glet):  # dead or not started
                 return []
             # otherwise a None frame means it's running
             if glet is not greenlet_getcurrent():
